@@ -70,7 +70,7 @@ def build(device, desc, loop=None) -> BuiltDb:
         for ci, c in enumerate(s['chars']):
             cell = {'value': bytes(c['value'])}
             descriptors = [gatt.Descriptor(d['uuid'], att.Attribute.Permissions(d['perms']), bytes(d['value'])) for d in c['descs']]
-            if c['kind'] == 'static':
+            if c['kind'] in ('static', 'typed'):
                 val = bytes(c['value'])
             elif c['kind'] == 'raising_cb':
                 # an application whose value functions fail: the peer's request still has to be answered
@@ -107,7 +107,12 @@ def build(device, desc, loop=None) -> BuiltDb:
                     cell['value'] = bytes(v)
 
                 val = gatt.CharacteristicValue(read=rd, write=wr)
-            ch = gatt.Characteristic(c['uuid'], gatt.Characteristic.Properties(c['props']), att.Attribute.Permissions(c['perms']), val, descriptors)
+            if c['kind'] == 'typed':
+                from bumble import gatt_adapters
+                ch = gatt_adapters.UTF8CharacteristicAdapter(gatt.Characteristic(c['uuid'], gatt.Characteristic.Properties(c['props']), att.Attribute.Permissions(c['perms']),
+                                                                                  'text ' + bytes(c['value']).hex()[:40], descriptors))
+            else:
+                ch = gatt.Characteristic(c['uuid'], gatt.Characteristic.Properties(c['props']), att.Attribute.Permissions(c['perms']), val, descriptors)
             ch._cell = cell
             chars.append(ch)
             out.char_objs[(si, ci)] = ch
@@ -130,6 +135,8 @@ def current_value(ch) -> bytes:
 
     if isinstance(ch.value, (att.AttributeValue, att.AttributeValueV2)):
         return ch._cell['value']
+    if isinstance(ch.value, str):  # a text characteristic behind an adapter
+        return ch.value.encode('utf-8')
     return bytes(ch.value) if ch.value is not None else b''
 
 
